@@ -222,6 +222,14 @@ def rule_constants(ck: Check, repo: Repo, folder: Folder) -> None:
     okc = bool(lc) and ast.unparse(lc[0].elt) == "line.strip()" and "splitlines()" in ast.unparse(lc[0].generators[0].iter) \
         and not lc[0].generators[0].ifs
     d5c = "set(map(str.strip, result.copyright.splitlines()))" in ast.unparse(d5)
+    for n in ast.walk(d5):
+        # the same as a set comprehension / a generator handed to set(): {l.strip() for l in result.copyright.splitlines()}
+        comp = n if isinstance(n, ast.SetComp) else (n.args[0] if isinstance(n, ast.Call) and ast.unparse(n.func) == "set" and len(n.args) == 1
+                                                      and isinstance(n.args[0], (ast.GeneratorExp, ast.ListComp)) else None)
+        if comp is not None and len(comp.generators) == 1 and not comp.generators[0].ifs and isinstance(comp.generators[0].target, ast.Name) \
+                and ast.unparse(comp.generators[0].iter) == "result.copyright.splitlines()" \
+                and ast.unparse(comp.elt) == f"{comp.generators[0].target.id}.strip()":
+            d5c = True
     r.instance("copyright-lines", {"converter_strip_splitlines": okc, "dep5_reader_strip_splitlines": d5c})
     if not (okc and d5c):
         r.violation(f"{CD}._copyrights_from_paragraph", "copyright lines",
